@@ -196,7 +196,14 @@ class Codec:
             assert silent, "2nd tag must be BodyLength"
             return (None, len(rawmsg), None)
         else:
-            msg_length += int(value)
+            try:
+                body_length = int(value)
+            except ValueError:
+                body_length = -1
+            if body_length < 0:
+                assert silent, "BodyLength must be a non-negative number"
+                return (None, len(rawmsg), None)
+            msg_length += body_length
 
         # message looks incomplete
         if msg_length > len(rawmsg):
@@ -217,14 +224,24 @@ class Codec:
                 assert silent, f"incomplete tag {m}"
                 return (None, len(rawmsg), None)
             tag, value = toks
+            try:
+                int(tag)
+            except ValueError:
+                assert silent, f"non-numeric tag {m}"
+                return (None, len(rawmsg), None)
 
             if tag == FTag.CheckSum:
                 cheksum_base = self.SOH.join(msg[:-1])
                 checksum = (sum([ord(i) for i in cheksum_base]) + 1) % 256
 
-                if checksum != int(value):
+                try:
+                    msg_checksum = int(value)
+                except ValueError:
+                    msg_checksum = -1
+
+                if checksum != msg_checksum:
                     logging.warning(
-                        "\tCheckSum: %s (INVALID) expecting %s" % (int(value), checksum)
+                        "\tCheckSum: %s (INVALID) expecting %s" % (value, checksum)
                     )
                     assert (
                         silent
